@@ -174,6 +174,13 @@ func (ex *Exec) arith(op token.Token, x, y *Term, k IntKind) *Term {
 		if x.IsConst() && y.IsConst() {
 			return IntC(new(big.Int).And(x.Val, y.Val))
 		}
+		// single-bit mask 2^k: ((x div 2^k) mod 2) * 2^k
+		for _, pr := range [][2]*Term{{x, y}, {y, x}} {
+			v, m := pr[0], pr[1]
+			if m.IsConst() && m.Val.Sign() > 0 && new(big.Int).And(m.Val, new(big.Int).Sub(m.Val, bigOne)).Sign() == 0 {
+				return IMul(IMod(IDiv(v, IntC(m.Val)), IntC64(2)), IntC(m.Val))
+			}
+		}
 	case token.OR, token.XOR, token.AND_NOT:
 		if x.IsConst() && y.IsConst() {
 			r := new(big.Int)
